@@ -85,30 +85,35 @@ def run(ctx):
                 d1.ok(cons, 'returns %s' % src(comp), f, r)
             else:
                 d1.fail(cons, 'not-normalised', 'the composition returned (%s) is not passed through fn.normalize' % src(comp), f, r)
-        # ---- D3
+        # ---- D3  (path-wise: the shape of the branch -- conditional expression, if/else, early return -- does not matter)
         one = [n for n in walk_no_nested(f.node) if isinstance(n, ast.If) and isinstance(n.test, ast.Compare)
-               and isinstance(n.test.comparators[0], ast.Constant) and n.test.comparators[0].value == 1 and isinstance(n.test.ops[0], ast.Eq)
-               and any(isinstance(b, ast.Return) for b in n.body)]
+               and isinstance(n.test.comparators[0], ast.Constant) and n.test.comparators[0].value == 1 and isinstance(n.test.ops[0], ast.Eq)]
         if not one:
             d3.fail(cons, 'no-shortcut', 'single-component shortcut missing', f, f.node)
         else:
-            b = one[0]
-            ret = [n for n in b.body if isinstance(n, ast.Return)]
+            tst = one[0].test
             want = 'Tsat' if kind == 'T' else 'Psat'
             crit = 'Tc' if kind == 'T' else 'Pc'
-            first = src(ret[0].value.elts[0]) if ret and isinstance(ret[0].value, ast.Tuple) else None
-            asg = [n for n in b.body if isinstance(n, ast.Assign) and src(n.targets[0]) == first]
-            okk = bool(asg and ret)
-            if okk:
-                v = asg[0].value
-                if isinstance(v, ast.IfExp):
-                    okk = re.search(r'\.%s\(' % want, src(v.body)) is not None and src(v.orelse).endswith('.' + crit)
-                else:
-                    okk = re.search(r'\.%s\(' % want, src(v)) is not None
-            if okk:
-                d3.ok(cons, 'single component: returns %s = chemical.%s(...) (critical value beyond the critical point)' % (kind, want), f, b)
+
+            def dec(t, st, tst=tst):
+                if t is tst:
+                    return True
+                if isinstance(t, ast.Compare) and isinstance(t.comparators[0], ast.Constant) and t.comparators[0].value == 0:
+                    return False
+                return None
+            ps1, _ = run_paths(f.node, decide=dec, follow_except=False)
+            ps1 = [p for p in ps1 if not p.raised and any(t is tst and taken for t, taken in p.conds)]
+            vals = []
+            for p in ps1:
+                rt = p.tup.get('<ret>')
+                if isinstance(rt, (list, tuple)) and rt and isinstance(rt[0], Form):
+                    vals.append(rt[0].pretty())
+            sat = [v for v in vals if re.search(r'\.%s\(' % want, v)]
+            other = [v for v in vals if not re.search(r'\.%s\(' % want, v)]
+            if vals and sat and all(v.endswith('.' + crit) for v in other):
+                d3.ok(cons, 'single component: returns %s = chemical.%s(...) (the critical value beyond the critical point) on all %d paths' % (kind, want, len(vals)), f, one[0])
             else:
-                d3.fail(cons, 'shortcut-kind', 'single-component shortcut does not return the chemical\'s %s' % want, f, b)
+                d3.fail(cons, 'shortcut-kind', 'single-component shortcut does not return the chemical\'s %s (returns %s)' % (want, sorted(set(vals))[:3]), f, one[0])
         # ---- D2
         homogeneity(ctx, d2, prog, f, cname, mname, rel)
     d5 = ctx.rule('D5', 'the residual summand has the shape of modified Raoult\'s law', floor=10)
